@@ -26,6 +26,8 @@ def run(ctx, rep):
         BR.check_class_header_arms(fx, rep, "C04.1", impl)
     import api_rules as AR
     AR.check_mapping_wiring(fx, rep, "C04.api")
+    import parser_rules as PRM
+    PRM.check_parser_premises(fx, rep, "C04.P")
     AR.check_mapper_constructors(fx, rep, "C04.api")
     LR.check_class_lookup(fx, rep, "C04.2")
     LR.check_remap_method(fx, rep, "C04.3")
